@@ -408,10 +408,20 @@ class _Parser(object):
 
         parsed_values = list(self.parse_many(values))
         assert parsed_values, '%s must have at least one parameter' % operator
+        date = None
         for value in parsed_values:
             if value is None:
                 return None
+            if operator == '$add' and isinstance(value, datetime.datetime):
+                if date is not None:
+                    raise OperationFailure('only one date allowed in an $add expression')
+                date = value
+                continue
             assert isinstance(value, numbers.Number), '%s only uses numbers' % operator
+        if date is not None:
+            # A date plus numbers: the date moved by that many milliseconds.
+            return date + datetime.timedelta(
+                milliseconds=sum(value for value in parsed_values if value is not date))
         if operator == '$add':
             return sum(parsed_values)
         if operator == '$multiply':
